@@ -54,8 +54,14 @@ func (vc *VC) inlinable0(fn *ssa.Function) bool {
 	if o := fn.Origin(); o != nil && vc.C.Funcs[CanonName(o)] != nil {
 		return false
 	}
-	if fn.Recover != nil || len(fn.AnonFuncs) > 0 {
+	if fn.Recover != nil {
 		return false
+	}
+	// closures of the helper: allowed when none of them is under contract (directly or in a site clause)
+	for _, af := range fn.AnonFuncs {
+		if vc.C.Funcs[CanonName(af)] != nil || len(af.AnonFuncs) > 0 {
+			return false
+		}
 	}
 	// a function that some contract names in a site / nosite clause is a unit of its own for that contract
 	name := CanonName(fn)
@@ -73,17 +79,12 @@ func (vc *VC) inlinable0(fn *ssa.Function) bool {
 	}
 	n := 0
 	for _, b := range fn.Blocks {
-		for _, s := range b.Succs {
-			if s == b || s.Dominates(b) {
-				return false // loop
-			}
-		}
 		for _, ins := range b.Instrs {
 			if _, isDbg := ins.(*ssa.DebugRef); !isDbg {
 				n++
 			}
 			switch x := ins.(type) {
-			case *ssa.Defer, *ssa.Go, *ssa.Select, *ssa.MakeClosure, *ssa.RunDefers:
+			case *ssa.Defer, *ssa.Go, *ssa.Select, *ssa.RunDefers:
 				return false
 			case *ssa.Call:
 				if x.Call.StaticCallee() == fn {
@@ -129,6 +130,20 @@ func (vc *VC) inlPath() string {
 }
 
 // outerBlock: the block of the function under verification that control is (transitively) in.
+// blockIn: the block of fn that control is in right now - the current block when fn is the function being walked,
+// otherwise the block of the call (on the inline stack) through which control left fn.
+func (vc *VC) blockIn(fn *ssa.Function) *ssa.BasicBlock {
+	if vc.cur != nil && vc.cur.Parent() == fn {
+		return vc.cur
+	}
+	for i := len(vc.inlStack) - 1; i >= 0; i-- {
+		if cb := vc.inlStack[i].call.Block(); cb.Parent() == fn {
+			return cb
+		}
+	}
+	return nil
+}
+
 func (vc *VC) outerBlock() *ssa.BasicBlock {
 	if len(vc.inlStack) > 0 {
 		return vc.inlStack[0].call.Block()
@@ -178,6 +193,14 @@ func (vc *VC) inlineCall(ins *ssa.Call, fn *ssa.Function) {
 			vc.vals[p] = args[i]
 		}
 	}
+	// the loops of this instance of the helper: cut at their headers like the loops of the function itself, with
+	// the invariants the contract gives for their (static) numbers
+	savedLoops := map[*ssa.BasicBlock]*loopInfo{}
+	nList := len(vc.loopList)
+	for _, ls := range vc.loopShapes(fn) {
+		savedLoops[ls.header] = vc.loops[ls.header]
+	}
+	vc.installLoops(fn, fr.path)
 	order := inlTopo(fn)
 	for _, b := range order {
 		if b.Index == 0 {
@@ -186,6 +209,14 @@ func (vc *VC) inlineCall(ins *ssa.Call, fn *ssa.Function) {
 		}
 		vc.block(b)
 	}
+	for h, old := range savedLoops {
+		if old == nil {
+			delete(vc.loops, h)
+		} else {
+			vc.loops[h] = old
+		}
+	}
+	vc.loopList = vc.loopList[:nList]
 	// continuation: merge the states at the callee's returns
 	vc.inlStack = vc.inlStack[:len(vc.inlStack)-1]
 	vc.inlPrefix = savedPrefix
@@ -214,6 +245,17 @@ func (vc *VC) inlineCall(ins *ssa.Call, fn *ssa.Function) {
 				vc.assert(fmt.Sprintf("(=> %s (= %s %s))", r.reach, res[i], r.res[i]))
 			}
 		}
+	}
+	// the continuation is reached through one of the helper's returns: a path of the helper that ends at the back
+	// edge of one of its (cut) loops does not continue in the caller
+	if len(fr.rets) > 0 && len(vc.loopShapes(fn)) > 0 {
+		var rs []string
+		for _, r := range fr.rets {
+			rs = append(rs, r.reach)
+		}
+		nr := vc.declare(fmt.Sprintf("R_%scont%d", savedPrefix, fr.id), "Bool")
+		vc.assert(fmt.Sprintf("(= %s %s)", nr, and(callerReach, or(rs...))))
+		vc.reach[callerCur] = nr
 	}
 	vc.forgetCallee(fn)
 	vc.bindResults(ins, res)
@@ -254,6 +296,9 @@ func inlTopo(fn *ssa.Function) []*ssa.BasicBlock {
 	dfs = func(b *ssa.BasicBlock) {
 		seen[b] = true
 		for _, s := range b.Succs {
+			if s.Dominates(b) {
+				continue // back edge
+			}
 			if !seen[s] {
 				dfs(s)
 			}
